@@ -110,6 +110,8 @@ func (ex *Exec) exportChunk(c *vchunk, model map[string]uint64) map[string]any {
 			m["msg"] = ex.exportValue(mv, t, model)
 		}
 		return m
+	case 3:
+		return map[string]any{"kind": "garbage", "size": fmt.Sprint(c.avail.eval(model))}
 	default:
 		var bs []any
 		for _, b := range c.raw {
@@ -121,14 +123,18 @@ func (ex *Exec) exportChunk(c *vchunk, model map[string]uint64) map[string]any {
 
 func (ex *Exec) exportImage(model map[string]uint64) any {
 	v := ex.vfs
+	nodes, ops := v.nodes, v.opLog
+	if v.crashNodes != nil {
+		nodes, ops = v.crashNodes, v.crashOps
+	}
 	var paths []string
-	for p := range v.nodes {
+	for p := range nodes {
 		paths = append(paths, p)
 	}
 	sort.Strings(paths)
 	var out []any
 	for _, p := range paths {
-		n := v.nodes[p]
+		n := nodes[p]
 		if n.dir {
 			out = append(out, map[string]any{"path": p, "dir": true})
 			continue
@@ -139,5 +145,5 @@ func (ex *Exec) exportImage(model map[string]uint64) any {
 		}
 		out = append(out, map[string]any{"path": p, "dir": false, "chunks": cs})
 	}
-	return map[string]any{"nodes": out, "ops": v.opLog}
+	return map[string]any{"nodes": out, "ops": ops}
 }
